@@ -66,11 +66,23 @@ type caseInfo struct {
 	Bulk, Fine             int
 	Measured               int // F or R, measured on the unlimited leg
 	Delta                  int // Measured - Limit
+	// Class refines Shape in signatures ("" = Shape): for the headers-alone
+	// shape it says whether the header block ALONE exceeds the limit
+	// ("headers-alone") or only together with the small message
+	// ("headers-plus-message").
+	Class string
+}
+
+func (c caseInfo) class() string {
+	if c.Class != "" {
+		return c.Class
+	}
+	return c.Shape
 }
 
 func (c caseInfo) witness(extra map[string]interface{}) map[string]interface{} {
 	w := map[string]interface{}{"leg": c.Leg, "protocol": c.Proto, "direction": c.Dir, "shape": c.Shape, "limit": c.Limit,
-		"bulk": c.Bulk, "fine": c.Fine, "measured_framed_size": c.Measured, "size_minus_limit": c.Delta,
+		"class": c.class(), "bulk": c.Bulk, "fine": c.Fine, "measured_framed_size": c.Measured, "size_minus_limit": c.Delta,
 		"message": "shape " + c.Shape + " built with shapes[shape].build(bulk, fine) of /verif/harness/c12/shapes.go (tag: echo(small, text(bulk+fine)); getbig: getBig(bulk+fine)); contexts: fixed 24-byte _cid, 7-digit _opid, 4-digit _timeout"}
 	for k, v := range extra {
 		w[k] = v
@@ -156,7 +168,7 @@ func (t *rpcTarget) requestCase(run *ev.Run, ci caseInfo, hdrBytes int) {
 		}
 	}
 	run.Add("requests_observed", 1)
-	sfx := t.name + ":" + ci.Proto + ":" + ci.Shape
+	sfx := t.name + ":" + ci.Proto + ":" + ci.class()
 	obs := map[string]interface{}{"outcome": class, "error": errText(err), "request_frames_at_tap": len(frames), "handler_calls": handled}
 	if len(frames) > 0 {
 		obs["transmitted_frame_bytes"] = len(frames[0])
@@ -241,7 +253,7 @@ func (t *rpcTarget) responseCase(run *ev.Run, ci caseInfo) {
 	replies := framesWithOpid(reps, id)
 	handled := len(t.leg.Handler.Snapshot())
 	run.Add("responses_observed", 1)
-	sfx := t.name + ":" + ci.Proto + ":" + ci.Shape
+	sfx := t.name + ":" + ci.Proto + ":" + ci.class()
 	obs := map[string]interface{}{"outcome": class, "error": errText(err), "reply_frames_at_tap": len(replies), "handler_calls": handled}
 	if len(replies) > 0 {
 		obs["reply_frame_bytes"] = len(replies[0])
@@ -425,7 +437,7 @@ func (t *pubTarget) publishCase(run *ev.Run, ci caseInfo, hdrBytes int) {
 	}
 	frames := framesWithOpid(t.frames(), id)
 	run.Add("publishes_observed", 1)
-	sfx := t.name + ":" + ci.Proto + ":" + ci.Shape
+	sfx := t.name + ":" + ci.Proto + ":" + ci.class()
 	obs := map[string]interface{}{"outcome": class, "error": errText(err), "frames_at_tap": len(frames)}
 	if len(frames) > 0 {
 		obs["transmitted_frame_bytes"] = len(frames[0])
